@@ -142,6 +142,8 @@ func tlsCase(c *core.Ctx, r *core.Rand, i int) {
 	var mu sync.Mutex
 	var stallers []*memnet.Conn
 	var swg sync.WaitGroup
+	var wantClosed, sawClosed atomic.Int64
+	var closing atomic.Bool // set when the harness itself starts closing the hostile connections
 	for k := 0; k < K; k++ {
 		kind := r.Intn(5)
 		if k == 0 {
@@ -169,6 +171,19 @@ func tlsCase(c *core.Ctx, r *core.Rand, i int) {
 				conn.Close()
 			default: // a plain-text KMIP request on the TLS port
 				conn.Write(request(tag + "-plaintext-ok"))
+			}
+			if kind == 2 || kind == 4 {
+				// the handshake cannot succeed: the server has to let go of the connection (an alert, then the end)
+				wantClosed.Add(1)
+				buf := make([]byte, 4096)
+				for {
+					if _, err := conn.Read(buf); err != nil {
+						if !closing.Load() {
+							sawClosed.Add(1)
+						}
+						return
+					}
+				}
 			}
 		}()
 		c.Count(fmt.Sprintf("tls_hostile_peers.kind%d", kind), 1)
@@ -225,6 +240,16 @@ func tlsCase(c *core.Ctx, r *core.Rand, i int) {
 		}
 	}
 	c.Distinct(core.Hash64("tls", kinds, fmt.Sprint(good)))
+	if !stopServing {
+		for k := 0; k < 2000 && sawClosed.Load() < wantClosed.Load(); k++ {
+			time.Sleep(5 * time.Millisecond)
+		}
+		c.Count("tls_failed_handshakes", wantClosed.Load())
+		if n := wantClosed.Load() - sawClosed.Load(); n > 0 {
+			c.Violation("C08:failed-handshake-connection-left-open", fmt.Sprintf("%d connections whose TLS handshake cannot succeed (garbage / plain text on the TLS port) were not closed by the server within 10 s: each one keeps a descriptor until the server runs out of them and stops accepting", n), nil)
+		}
+	}
+	closing.Store(true)
 	shutdownWhileStalled := i%3 == 0 && !stopServing
 	closeStallers := func() {
 		// dials that are still waiting for the accept loop are given up as well
